@@ -1,7 +1,7 @@
 SPECIFICATION GSpec
 CONSTANTS
   MaxOps = 5
-  MaxLen = 8
+  MaxLen = 7
   MaxSeats = 3
   Nodes = {1}
   Modes = {"keygen"}
